@@ -186,7 +186,9 @@ def scan_tables():
             continue
         ents = []
         for e in re.finditer(r"^\s*(PIXMAN_STD_FAST_PATH(?:_CA)?|SIMPLE_NEAREST[A-Z_]*FAST_PATH[A-Z_]*|SIMPLE_BILINEAR[A-Z_]*FAST_PATH[A-Z_]*|SIMPLE_ROTATE_FAST_PATH|FAST_NEAREST[A-Z_]*|FAST_BILINEAR[A-Z_]*|\{)\s*\(?([^\n]*)", m.group(1), re.M):
-            args = [a.strip(" (){},;") for a in e.group(2).split(",")]
+            args = [a for a in (a.strip(" (){},;") for a in e.group(2).split(",")) if a]
+            if not args:
+                continue
             macro = e.group(1)
             fn = args[-1] if macro.startswith("PIXMAN_STD") else macro + ":" + "_".join(a for a in args if a)
             if fn in proved_kernel:
